@@ -75,15 +75,11 @@ impl Cust {
 impl bridged::Bridged for Cust {
     type Error = Echo;
     fn br_exec(&self, ctx: ExecCtx, a: u64) -> Result<Response, Echo> {
+        // observations travel in the response data, through IntoResponse::into_response, back to the caller
         self.calls.hit(2);
         ctx.deps.storage.set(b"k", &[2]);
         ctx.deps.api.debug("abc");
-        let mut o = Obs::new(2);
-        o.args[0] = a;
-        o.height = ctx.env.block.height;
-        o.sender_len = ctx.info.sender.as_str().len() as u64;
-        o.funds = ctx.info.funds.len() as u64;
-        Err(Echo::H(o))
+        Ok(Response::new().set_data(vec![a as u8, ctx.env.block.height as u8, ctx.info.sender.as_str().len() as u8, ctx.info.funds.len() as u8]))
     }
     fn br_exec_ok(&self, ctx: ExecCtx, d: u8) -> Result<Response, Echo> {
         self.calls.hit(5);
@@ -92,10 +88,7 @@ impl bridged::Bridged for Cust {
     fn br_sudo(&self, ctx: SudoCtx, a: u64) -> Result<Response, Echo> {
         self.calls.hit(3);
         ctx.deps.storage.set(b"k", &[3]);
-        let mut o = Obs::new(3);
-        o.args[0] = a;
-        o.height = ctx.env.block.height;
-        Err(Echo::H(o))
+        Ok(Response::new().set_data(vec![a as u8, ctx.env.block.height as u8]))
     }
     fn br_query(&self, ctx: QueryCtx, a: u64) -> Result<u64, Echo> {
         self.calls.hit(4);
@@ -136,9 +129,10 @@ pub mod proofs {
         };
     }
 
-    /// bridged exec (`: custom(msg, query)`): the Empty-typed handler sees the caller's storage, api, env and sender
+    /// bridged exec (`: custom(msg, query)`): the Empty-typed handler sees the caller's storage, api, env and sender,
+    /// and its response (here: data carrying those observations) reaches the caller through into_response
     #[kani::proof]
-    #[kani::unwind(4)]
+    #[kani::unwind(6)]
     #[kani::stub(alloc::fmt::format, fmt_stub)]
     #[kani::stub(std::backtrace::Backtrace::capture, bt_stub)]
     fn c11_fx_custom_bridged_exec_ctx() {
@@ -149,7 +143,16 @@ pub mod proofs {
         let msg: sv::ContractExecMsg = bridged::sv::ExecMsg::BrExec { a: x }.into();
         let r = core::mem::ManuallyDrop::new(msg.dispatch(&c, (deps, env(h), info(sl))));
         match &*r {
-            Err(Echo::H(o)) => assert!(o.h == 2 && o.args[0] == x && o.height == h && o.sender_len == sl as u64 && o.funds == 0),
+            Ok(resp) => {
+                assert!(resp.messages.is_empty() && resp.attributes.is_empty() && resp.events.is_empty());
+                match &resp.data {
+                    Some(b) => {
+                        let b = b.as_slice();
+                        assert!(b.len() == 4 && b[0] == x as u8 && b[1] == h as u8 && b[2] == sl && b[3] == 0);
+                    }
+                    None => assert!(false),
+                }
+            }
             _ => assert!(false),
         }
         assert!(c.calls.only(2));
@@ -157,7 +160,7 @@ pub mod proofs {
         kani::cover!(true, "end of harness reachable");
     }
     #[kani::proof]
-    #[kani::unwind(4)]
+    #[kani::unwind(6)]
     #[kani::stub(alloc::fmt::format, fmt_stub)]
     #[kani::stub(std::backtrace::Backtrace::capture, bt_stub)]
     fn c11_fx_custom_bridged_sudo_ctx() {
@@ -168,7 +171,13 @@ pub mod proofs {
         let msg: sv::ContractSudoMsg = bridged::sv::SudoMsg::BrSudo { a: x }.into();
         let r = core::mem::ManuallyDrop::new(msg.dispatch(&c, (deps, env(h))));
         match &*r {
-            Err(Echo::H(o)) => assert!(o.h == 3 && o.args[0] == x && o.height == h),
+            Ok(resp) => match &resp.data {
+                Some(b) => {
+                    let b = b.as_slice();
+                    assert!(b.len() == 2 && b[0] == x as u8 && b[1] == h as u8);
+                }
+                None => assert!(false),
+            },
             _ => assert!(false),
         }
         assert!(c.calls.only(3));
@@ -194,7 +203,7 @@ pub mod proofs {
         assert!(s.0.get() == 1004);
         kani::cover!(true, "end of harness reachable");
     }
-    /// native interface and the contract's own handler in the same contract
+    /// native interface handler and the contract's own handler in the same contract (one harness each)
     #[kani::proof]
     #[kani::unwind(4)]
     #[kani::stub(alloc::fmt::format, fmt_stub)]
@@ -202,18 +211,35 @@ pub mod proofs {
     fn c11_fx_custom_native_exec_ctx() {
         setup!(s, a, q, h, sl);
         let x: u64 = kani::any();
-        let which: bool = kani::any();
         let c = Cust::new();
         let deps = DepsMut { storage: &mut s, api: &a, querier: QuerierWrapper::<MyQuery>::new(&q) };
-        let msg: sv::ContractExecMsg = if which { native::sv::ExecMsg::NaExec { a: x }.into() } else { sv::ExecMsg::OwnExec { a: x }.into() };
+        let msg: sv::ContractExecMsg = native::sv::ExecMsg::NaExec { a: x }.into();
         let r = core::mem::ManuallyDrop::new(msg.dispatch(&c, (deps, env(h), info(sl))));
-        let eh = if which { 6 } else { 1 };
         match &*r {
-            Err(Echo::H(o)) => assert!(o.h == eh && o.args[0] == x && o.height == h && o.sender_len == sl as u64),
+            Err(Echo::H(o)) => assert!(o.h == 6 && o.args[0] == x && o.height == h && o.sender_len == sl as u64),
             _ => assert!(false),
         }
-        assert!(c.calls.only(eh));
-        assert!(s.0.get() == eh as u64);
+        assert!(c.calls.only(6));
+        assert!(s.0.get() == 6);
+        kani::cover!(true, "end of harness reachable");
+    }
+    #[kani::proof]
+    #[kani::unwind(4)]
+    #[kani::stub(alloc::fmt::format, fmt_stub)]
+    #[kani::stub(std::backtrace::Backtrace::capture, bt_stub)]
+    fn c11_fx_custom_own_exec_ctx() {
+        setup!(s, a, q, h, sl);
+        let x: u64 = kani::any();
+        let c = Cust::new();
+        let deps = DepsMut { storage: &mut s, api: &a, querier: QuerierWrapper::<MyQuery>::new(&q) };
+        let msg: sv::ContractExecMsg = sv::ExecMsg::OwnExec { a: x }.into();
+        let r = core::mem::ManuallyDrop::new(msg.dispatch(&c, (deps, env(h), info(sl))));
+        match &*r {
+            Err(Echo::H(o)) => assert!(o.h == 1 && o.args[0] == x && o.height == h && o.sender_len == sl as u64),
+            _ => assert!(false),
+        }
+        assert!(c.calls.only(1));
+        assert!(s.0.get() == 1);
         kani::cover!(true, "end of harness reachable");
     }
     /// bridged Ok path: the Empty-typed response reaches the caller through into_response with its data intact
